@@ -91,6 +91,7 @@ fn word_case<D: DictionaryAccess>(
     has_syn: bool,
     dic: u8,
     nsys: usize,
+    pos_offset: usize,
     wid: u32,
     subsets: &[u32],
     desc: Value,
@@ -150,14 +151,23 @@ fn word_case<D: DictionaryAccess>(
         cbool(has_syn),
         cn(dic),
         cnu(nsys),
-        cnu(nsys),
+        cnu(pos_offset),
         cn(wid),
         full_raw.coq(),
         clist(distinct.iter().map(|r| r.coq())),
         clist(pairs.iter().map(|(s, k)| format!("({}, {})", cn(*s), cnu(*k))))
     );
     sink.tag(if has_syn { "dictionary_with_synonym_ids" } else { "dictionary_without_synonym_ids" });
-    sink.tag(if dic == 0 { "system_word" } else { "user_word" });
+    sink.tag(match dic {
+        0 => "system_word",
+        1 => "user_word_dictionary_1",
+        _ => "user_word_dictionary_2",
+    });
+    if let Readback::Ok { a, b, ws, .. } = &full_raw {
+        if dic > 1 && a.iter().chain(b.iter()).chain(ws.iter()).any(|w| w >> 28 != 0) {
+            sink.tag("user_word_dictionary_2_refers_to_user_word");
+        }
+    }
     sink.tag(if subsets.len() == 1024 { "all_1024_subsets" } else { "sampled_subsets" });
     if let Readback::Ok { dfwi, .. } = &full_raw {
         sink.tag(if *dfwi < 0 || *dfwi as u32 == wid { "own_dictionary_form" } else { "dictionary_form_elsewhere" });
@@ -179,25 +189,82 @@ fn sampled(rng: &mut Rng, n: usize) -> Vec<u32> {
     v
 }
 
+/// system lexicon + (for `user`) two user lexicons compiled against it; everything derives from the generator state
+struct Stack {
+    c: c05::Case,
+    u2: Option<(c05::Lex, String)>,
+}
+fn gen_stack(st: u64, user: bool, scratch_dir: &std::path::Path) -> Stack {
+    let mut r = Rng(st);
+    let mut scratch = Sink::new("C11", &scratch_dir.join("scratch"), &[], 0, "quick");
+    let c = c05::gen_case(&mut r, &mut scratch, user, false, false);
+    let u2 = if user {
+        let ids = c.matrix.nl.min(c.matrix.nr) as i16;
+        let mut lex = c05::gen_lex(&mut r, &mut scratch, &c.pool, Some(&c.sys), ids, false, false);
+        // references from user words to user words of the same dictionary: these are the ones LexiconSet re-stamps
+        let n = lex.rows.len() as u64;
+        for row in lex.rows.iter_mut() {
+            if row.mode != "A" && row.mode != "a" {
+                match r.below(4) {
+                    0 if row.split_a.len() < 127 => row.split_a.push(c05::Ref::User(r.below(n) as u32)),
+                    1 if row.split_b.len() < 127 => row.split_b.push(c05::Ref::User(r.below(n) as u32)),
+                    _ => {}
+                }
+            }
+            if r.chance(1, 4) && row.word_structure.len() < 127 {
+                row.word_structure.push(c05::Ref::User(r.below(n) as u32));
+            }
+        }
+        let csv = c05::render_csv(&lex, &c.pool, &mut r, &mut scratch);
+        Some((lex, csv))
+    } else {
+        None
+    };
+    Stack { c, u2 }
+}
+
+struct LoadedStack {
+    sys_bytes: Vec<u8>,
+    loaded_nsys: usize,
+    u1: Vec<u8>,
+    u2: Vec<u8>,
+    pos_offset_2: usize,
+    jd: JapaneseDictionary,
+}
+fn load_stack(stk: &Stack) -> Option<LoadedStack> {
+    let c = &stk.c;
+    let sys_bytes = c05::compile_system(&c.sys_csv, &c.matrix_text, c.time, &c.descr).ok()?;
+    let loaded: LoadedDictionary = DictionaryLoader::read_system_dictionary(&sys_bytes).ok().and_then(|d| d.to_loaded())?;
+    let nsys = loaded.grammar.pos_list.len();
+    let u1 = c05::compile_user(&loaded, &c.user_csv, c.time, &c.descr).ok()?;
+    let (_, csv2) = stk.u2.as_ref()?;
+    let u2 = c05::compile_user(&loaded, csv2, c.time, &c.descr).ok()?;
+    // POS of the second user dictionary are re-based behind those the first one added
+    let sys_exp = c05::expect(&c.sys, &c.pool, None)?;
+    let e1 = c05::expect(c.user.as_ref()?, &c.pool, Some((&c.sys, &sys_exp)))?;
+    let jd = c05::load_with_user(sys_bytes.clone(), vec![u1.clone(), u2.clone()]).ok()?;
+    Some(LoadedStack { sys_bytes, loaded_nsys: nsys, u1, u2, pos_offset_2: nsys + e1.new_pos.len(), jd })
+}
+
 fn word_level(sink: &mut Sink, rng: &mut Rng, n_dicts: usize, exhaustive_words: usize) {
     let mut exhaustive_left = exhaustive_words;
     for k in 0..n_dicts {
         let st = rng.next();
         let user = k % 2 == 1;
-        let mut r = Rng(st);
-        let mut scratch = Sink::new("C11", &sink.dir.join("scratch"), &[], 0, "quick");
-        let c = c05::gen_case(&mut r, &mut scratch, user, false, false);
-        let sys_bytes = match c05::compile_system(&c.sys_csv, &c.matrix_text, c.time, &c.descr) {
-            Ok(b) => b,
-            Err(_) => continue,
-        };
-        let loaded: LoadedDictionary = match DictionaryLoader::read_system_dictionary(&sys_bytes).ok().and_then(|d| d.to_loaded()) {
-            Some(l) => l,
-            None => continue,
-        };
-        let nsys = loaded.grammar.pos_list.len();
-        let desc = |wid: usize, kind: &str| json!({"kind": "c11-word", "rng": st, "user": user, "word": wid, "variant": kind, "csv": if c.sys_csv.len() < 1200 { c.sys_csv.clone() } else { String::new() }, "user_csv": if c.user_csv.len() < 1200 { c.user_csv.clone() } else { String::new() }});
+        let stk = gen_stack(st, user, &sink.dir.clone());
+        let c = &stk.c;
+        let desc = |dic: u8, wid: usize, kind: &str| json!({"kind": "c11-word", "rng": st, "user": user, "dic": dic, "word": wid, "variant": kind, "csv": if c.sys_csv.len() < 1200 { c.sys_csv.clone() } else { String::new() }, "user_csv": if c.user_csv.len() < 1200 { c.user_csv.clone() } else { String::new() },
+            "user2_csv": stk.u2.as_ref().map(|x| if x.1.len() < 1200 { x.1.clone() } else { String::new() }).unwrap_or_default()});
         if !user {
+            let sys_bytes = match c05::compile_system(&c.sys_csv, &c.matrix_text, c.time, &c.descr) {
+                Ok(b) => b,
+                Err(_) => continue,
+            };
+            let loaded: LoadedDictionary = match DictionaryLoader::read_system_dictionary(&sys_bytes).ok().and_then(|d| d.to_loaded()) {
+                Some(l) => l,
+                None => continue,
+            };
+            let nsys = loaded.grammar.pos_list.len();
             for wid in 0..c.sys.rows.len() {
                 let subs = if exhaustive_left > 0 && wid < 2 {
                     exhaustive_left -= 1;
@@ -205,7 +272,7 @@ fn word_level(sink: &mut Sink, rng: &mut Rng, n_dicts: usize, exhaustive_words: 
                 } else {
                     sampled(rng, 30)
                 };
-                word_case(sink, &loaded, &sys_bytes, true, 0, nsys, wid as u32, &subs, desc(wid, "system"));
+                word_case(sink, &loaded, &sys_bytes, true, 0, nsys, nsys, wid as u32, &subs, desc(0, wid, "system"));
             }
             // the same dictionary labelled as the first system format: no synonym group ids
             let mut v1 = sys_bytes.clone();
@@ -218,26 +285,30 @@ fn word_level(sink: &mut Sink, rng: &mut Rng, n_dicts: usize, exhaustive_words: 
                     } else {
                         sampled(rng, 30)
                     };
-                    word_case(sink, &l1, &v1, false, 0, nsys, wid as u32, &subs, desc(wid, "system-v1"));
+                    word_case(sink, &l1, &v1, false, 0, nsys, nsys, wid as u32, &subs, desc(0, wid, "system-v1"));
                 }
             }
-        } else if let Some(u) = &c.user {
-            let ub = match c05::compile_user(&loaded, &c.user_csv, c.time, &c.descr) {
-                Ok(b) => b,
-                Err(_) => continue,
+        } else {
+            // system + two user dictionaries: the words of the SECOND one have their POS ids and their references to
+            // user words re-based by LexiconSet (for the first one re-stamping to dictionary 1 changes nothing)
+            let ls = match load_stack(&stk) {
+                Some(l) => l,
+                None => continue,
             };
-            let jd = match c05::load_with_user(sys_bytes.clone(), vec![ub.clone()]) {
-                Ok(d) => d,
-                Err(_) => continue,
-            };
-            for wid in 0..u.rows.len() {
+            let _ = &ls.sys_bytes;
+            let n1 = c.user.as_ref().map(|u| u.rows.len()).unwrap_or(0);
+            for wid in 0..n1.min(2) {
+                word_case(sink, &ls.jd, &ls.u1, true, 1, ls.loaded_nsys, ls.loaded_nsys, wid as u32, &sampled(rng, 30), desc(1, wid, "user-1"));
+            }
+            let n2 = stk.u2.as_ref().map(|u| u.0.rows.len()).unwrap_or(0);
+            for wid in 0..n2 {
                 let subs = if exhaustive_left > 0 && wid < 2 {
                     exhaustive_left -= 1;
                     all_subsets()
                 } else {
                     sampled(rng, 30)
                 };
-                word_case(sink, &jd, &ub, true, 1, nsys, wid as u32, &subs, desc(wid, "user"));
+                word_case(sink, &ls.jd, &ls.u2, true, 2, ls.loaded_nsys, ls.pos_offset_2, wid as u32, &subs, desc(2, wid, "user-2"));
             }
         }
     }
@@ -248,8 +319,6 @@ fn config(rewrite: bool) -> Config {
     let res = c05::resources();
     let j = json!({
         "path": res,
-        "systemDict": "system.dic.test",
-        "userDict": ["user.dic.test"],
         "characterDefinitionFile": "char.def",
         "inputTextPlugin": [{"class": "com.worksap.nlp.sudachi.DefaultInputTextPlugin"}],
         "oovProviderPlugin": [{"class": "com.worksap.nlp.sudachi.SimpleOovPlugin", "oovPOS": ["名詞", "普通名詞", "一般", "*", "*", "*"], "leftId": 8, "rightId": 8, "cost": 6000}],
@@ -258,6 +327,29 @@ fn config(rewrite: bool) -> Config {
             {"class": "com.worksap.nlp.sudachi.JoinKatakanaOovPlugin", "oovPOS": ["名詞", "普通名詞", "一般", "*", "*", "*"], "minLength": 3}]) } else { json!([]) }
     });
     ConfigBuilder::from_bytes(j.to_string().as_bytes()).unwrap().build()
+}
+/// the shipped system dictionary with TWO user dictionaries on top, compiled here from the shipped CSVs: user2.csv as
+/// dictionary 1 and user1.csv as dictionary 2, so that 東京府 (splits `5/U1`: a system word and a user word) and its
+/// references live in a dictionary whose references LexiconSet must re-stamp
+fn shipped_stack(rewrite: bool) -> Result<JapaneseDictionary, String> {
+    let res = c05::resources();
+    let sys = std::fs::read(format!("{}/system.dic.test", res)).map_err(|e| e.to_string())?;
+    let loaded = DictionaryLoader::read_system_dictionary(&sys).map_err(|e| format!("{:?}", e))?.to_loaded().ok_or("no grammar")?;
+    let mut users = vec![];
+    for f in ["user2.csv", "user1.csv"] {
+        let csv = std::fs::read_to_string(format!("{}/{}", res, f)).map_err(|e| e.to_string())?;
+        users.push(c05::compile_user(&loaded, &csv, 0, "")?);
+    }
+    match catch(|| {
+        let mut st = sudachi::dic::storage::SudachiDicData::new(sudachi::dic::storage::Storage::Owned(sys.clone()));
+        for u in users {
+            st.add_user(sudachi::dic::storage::Storage::Owned(u));
+        }
+        JapaneseDictionary::from_cfg_storage(&config(rewrite), st).map_err(|e| format!("{:?}", e))
+    }) {
+        Ok(r) => r,
+        Err(p) => Err(format!("panic {}", p)),
+    }
 }
 fn mode_of(k: u64) -> Mode {
     match k {
@@ -337,14 +429,14 @@ fn analyse(dict: &JapaneseDictionary, text: &str, m0: Mode, m: Mode, subset: Opt
 fn tokenizer_level(sink: &mut Sink, rng: &mut Rng, n: usize) {
     let dicts: Vec<(bool, JapaneseDictionary)> = [false, true]
         .iter()
-        .filter_map(|rw| JapaneseDictionary::from_cfg(&config(*rw)).ok().map(|d| (*rw, d)))
+        .filter_map(|rw| shipped_stack(*rw).ok().map(|d| (*rw, d)))
         .collect();
     if dicts.len() != 2 {
         let c = sink.case_rust_only(json!({"kind": "c11-tok-setup"}), false);
         sink.fail(c, "cannot load the shipped test dictionaries", "");
         return;
     }
-    let pieces = ["東京都", "京都", "東京", "に", "行く", "行った", "高輪ゲートウェイ駅", "特急はくたか", "いく", "いった", "123", "三千円", "アイウエオ", "abc", "ｱｲｳ", " ", "。", "ぴらる", "魔法", "東", "都", "くに", "東京府", "ａ"];
+    let pieces = ["東京都", "京都", "東京", "に", "行く", "行った", "高輪ゲートウェイ駅", "特急はくたか", "いく", "いった", "123", "三千円", "アイウエオ", "abc", "ｱｲｳ", " ", "。", "ぴらる", "魔法", "東", "都", "くに", "東京府", "ａ", "東京府", "府", "すだち", "かぼす", "ぴさる"];
     for k in 0..n {
         let (rewrite, dict) = &dicts[k % 2];
         let np = 1 + rng.below(4) as usize;
@@ -403,30 +495,244 @@ fn tokenizer_level(sink: &mut Sink, rng: &mut Rng, n: usize) {
     }
 }
 
+// ---------------------------------------------------------------- long-lived tokenizers, shared result lists
+#[derive(Clone, Debug)]
+enum Op {
+    Mode(usize, u64),
+    Subset(usize, u32),
+    /// tokenizer, list, text: analyse and collect the result into the list
+    Run(usize, usize, String),
+}
+fn ops_json(ops: &[Op]) -> Value {
+    Value::Array(
+        ops.iter()
+            .map(|o| match o {
+                Op::Mode(t, m) => json!(["mode", t, m]),
+                Op::Subset(t, s) => json!(["subset", t, s]),
+                Op::Run(t, l, x) => json!(["run", t, l, x]),
+            })
+            .collect(),
+    )
+}
+fn ops_from_json(v: &Value) -> Vec<Op> {
+    v.as_array()
+        .unwrap()
+        .iter()
+        .map(|o| match o[0].as_str().unwrap() {
+            "mode" => Op::Mode(o[1].as_u64().unwrap() as usize, o[2].as_u64().unwrap()),
+            "subset" => Op::Subset(o[1].as_u64().unwrap() as usize, o[2].as_u64().unwrap() as u32),
+            _ => Op::Run(o[1].as_u64().unwrap() as usize, o[2].as_u64().unwrap() as usize, o[3].as_str().unwrap().to_string()),
+        })
+        .collect()
+}
+
+/// Runs the operations on two tokenizers and two result lists that live for the whole sequence.  Every analysis is
+/// compared with a full-field analysis of the same text in the same mode by a fresh tokenizer, for the subset that
+/// was last requested of that tokenizer.  Returns the Coq term and the first failure.
+fn run_sequence(dict: &JapaneseDictionary, rewrite: bool, m0s: [u64; 2], ops: &[Op], verbose: bool) -> (String, Option<String>) {
+    use sudachi::analysis::mlist::MorphemeList;
+    let mut toks: Vec<StatefulTokenizer<&JapaneseDictionary>> = m0s.iter().map(|m| StatefulTokenizer::new(dict, mode_of(*m))).collect();
+    let mut lists: Vec<MorphemeList<&JapaneseDictionary>> = (0..2).map(|_| MorphemeList::empty(dict)).collect();
+    let mut req: [Option<u32>; 2] = [None, None];
+    let mut modes = m0s;
+    let mut coq: Vec<String> = vec![];
+    let mut bad: Option<String> = None;
+    for (k, op) in ops.iter().enumerate() {
+        match op {
+            Op::Mode(t, m) => {
+                toks[*t].set_mode(mode_of(*m));
+                modes[*t] = *m;
+                coq.push(format!("OpMode {} {}", cnu(*t), cn(*m)));
+            }
+            Op::Subset(t, s) => {
+                toks[*t].set_subset(InfoSubset::from_bits_truncate(*s));
+                req[*t] = Some(*s);
+                coq.push(format!("OpSubset {} {}", cnu(*t), cn(*s)));
+            }
+            Op::Run(t, l, text) => {
+                let s = req[*t].unwrap_or(1023);
+                let r = catch(|| {
+                    let tok = &mut toks[*t];
+                    tok.reset().push_str(text);
+                    tok.do_tokenize().map_err(|e| format!("{:?}", e))?;
+                    lists[*l].collect_results(tok).map_err(|e| format!("{:?}", e))?;
+                    let ml = &lists[*l];
+                    let mut out = vec![];
+                    for i in 0..ml.len() {
+                        let mo = ml.get(i);
+                        out.push(Tok {
+                            begin: mo.begin(),
+                            end: mo.end(),
+                            surface: mo.surface().to_string(),
+                            wid: mo.word_id().as_raw(),
+                            acc: accessors(&D2(mo.get_word_info().clone()), s & !1 & !2),
+                        });
+                    }
+                    Ok::<(Vec<Tok>, u32), String>((out, ml.subset().bits()))
+                });
+                let r = match r {
+                    Ok(x) => x,
+                    Err(p) => Err(format!("panic {}", p)),
+                };
+                let full = analyse(dict, text, mode_of(modes[*t]), mode_of(modes[*t]), None, 0, s);
+                if verbose {
+                    println!("step {}: tokenizer {} (mode {}, requested subset {:#b}) analyses {:?} into list {}", k, t, modes[*t], s, text, l);
+                    println!("   with the long-lived tokenizer: {:?}", r);
+                    println!("   full-field, fresh tokenizer  : {:?}", full);
+                }
+                match (r, full) {
+                    (Ok((toks_out, observed)), Ok((full, _))) => {
+                        coq.push(format!("OpCollect {} {}", cnu(*t), cn(observed)));
+                        if bad.is_some() {
+                            continue;
+                        }
+                        let cat: String = toks_out.iter().map(|t| t.surface.as_str()).collect();
+                        let contiguous = toks_out.windows(2).all(|w| w[0].end == w[1].begin)
+                            && toks_out.first().map(|t| t.begin == 0).unwrap_or(text.is_empty())
+                            && toks_out.last().map(|t| t.end == text.len()).unwrap_or(true);
+                        if cat != *text || !contiguous {
+                            bad = Some(format!("step {}: surfaces {:?} do not partition {:?}", k, toks_out.iter().map(|t| &t.surface).collect::<Vec<_>>(), text));
+                        }
+                        if !rewrite || (s & 13) == 13 {
+                            let b1: Vec<_> = toks_out.iter().map(|t| (t.begin, t.end, t.wid)).collect();
+                            let b2: Vec<_> = full.iter().map(|t| (t.begin, t.end, t.wid)).collect();
+                            if b1 != b2 {
+                                bad = Some(format!("step {} ({:?}, mode {}, requested subset {:#b}): boundaries / word ids {:?}, full-field analysis {:?}", k, text, modes[*t], s, b1, b2));
+                            } else {
+                                for (x, y) in toks_out.iter().zip(full.iter()) {
+                                    if x.acc != y.acc && x.wid >> 28 != 0xf && bad.is_none() {
+                                        bad = Some(format!("step {} (mode {}, requested subset {:#b}): token {:?}: requested accessors {:?}, full-field analysis {:?}", k, modes[*t], s, x.surface, x.acc, y.acc));
+                                    }
+                                }
+                                // splitting the collected morphemes (Morpheme::split_into reads the sub-words with the
+                                // subset stored in the list): compared when the split field of that mode was requested
+                                if bad.is_none() {
+                                    bad = compare_splits(dict, &lists[*l], text, modes[*t], s).map(|b| format!("step {}: {}", k, b));
+                                }
+                            }
+                        }
+                    }
+                    (Err(e), Ok(_)) => {
+                        if bad.is_none() {
+                            bad = Some(format!("step {}: analysis of {:?} fails only on the long-lived tokenizer: {}", k, text, e));
+                        }
+                    }
+                    _ => {}
+                }
+            }
+        }
+    }
+    (format!("check_c11_ops {} {}", clist(m0s.iter().map(|m| cn(*m))), clist(coq)), bad)
+}
+
+/// split every morpheme of `ml` in the modes whose split field is in the requested subset `s`, and compare with the
+/// same split of a fresh full-field analysis of the text
+fn compare_splits(dict: &JapaneseDictionary, ml: &sudachi::analysis::mlist::MorphemeList<&JapaneseDictionary>, text: &str, mode: u64, s: u32) -> Option<String> {
+    use sudachi::analysis::mlist::MorphemeList;
+    let r = catch(|| {
+        let mut tok = StatefulTokenizer::new(dict, mode_of(mode));
+        tok.reset().push_str(text);
+        tok.do_tokenize().ok()?;
+        let full = tok.into_morpheme_list().ok()?;
+        if full.len() != ml.len() {
+            return None;
+        }
+        for (bit, m) in [(64u32, Mode::A), (128u32, Mode::B)] {
+            if s & bit == 0 {
+                continue;
+            }
+            for i in 0..ml.len() {
+                let mut o1 = MorphemeList::empty(dict);
+                let mut o2 = MorphemeList::empty(dict);
+                let k1 = ml.split_into(m, i, &mut o1).ok()?;
+                let k2 = full.split_into(m, i, &mut o2).ok()?;
+                let d1: Vec<_> = (0..o1.len()).map(|j| { let x = o1.get(j); (x.begin(), x.end(), x.word_id().as_raw(), accessors(&D2(x.get_word_info().clone()), s & !1 & !2)) }).collect();
+                let d2: Vec<_> = (0..o2.len()).map(|j| { let x = o2.get(j); (x.begin(), x.end(), x.word_id().as_raw(), accessors(&D2(x.get_word_info().clone()), s & !1 & !2)) }).collect();
+                if k1 != k2 || d1 != d2 {
+                    return Some(format!("split_into({:?}) of morpheme {} of {:?} (requested subset {:#b}): {:?} {:?}, on the full-field analysis {:?} {:?}", m, i, text, s, k1, d1, k2, d2));
+                }
+            }
+        }
+        None
+    });
+    match r {
+        Ok(x) => x,
+        Err(p) => Some(format!("splitting the collected morphemes of {:?} panicked: {}", text, p)),
+    }
+}
+
+fn sequence_level(sink: &mut Sink, rng: &mut Rng, n: usize) {
+    let dicts: Vec<(bool, JapaneseDictionary)> = [false, true].iter().filter_map(|rw| shipped_stack(*rw).ok().map(|d| (*rw, d))).collect();
+    if dicts.len() != 2 {
+        return; // reported by tokenizer_level
+    }
+    let pieces = ["東京都", "京都", "東京府", "に", "行く", "行った", "高輪ゲートウェイ駅", "特急はくたか", "いった", "123", "三千円", "アイウエオ", "ぴらる", "東京府", "すだち", "府"];
+    let subsets = [0u32, 16, 13, 1023, 64, 128, 32, 8 | 512, 4];
+    for k in 0..n {
+        let (rewrite, dict) = &dicts[k % 2];
+        let m0s = [rng.below(3), rng.below(3)];
+        let len = 4 + rng.below(7) as usize;
+        let mut ops = vec![];
+        let mut runs = 0;
+        for _ in 0..len {
+            let t = rng.below(2) as usize;
+            match rng.below(20) {
+                0..=4 => {
+                    let s = if rng.chance(2, 3) { *rng.pick(&subsets) } else { rng.below(1024) as u32 };
+                    ops.push(Op::Subset(t, s));
+                }
+                5..=7 => ops.push(Op::Mode(t, rng.below(3))),
+                _ => {
+                    // mostly one shared list: that is where configurations of earlier analyses can leak
+                    let l = if rng.chance(3, 4) { 0 } else { 1 };
+                    let np = 1 + rng.below(3) as usize;
+                    ops.push(Op::Run(t, l, (0..np).map(|_| *rng.pick(&pieces)).collect()));
+                    runs += 1;
+                }
+            }
+        }
+        let desc = json!({"kind": "c11-seq", "rewrite": rewrite, "m0": [m0s[0], m0s[1]], "ops": ops_json(&ops)});
+        let (term, bad) = run_sequence(dict, *rewrite, m0s, &ops, false);
+        sink.tag(if runs >= 3 { "sequence_with_3_or_more_analyses" } else { "sequence_with_fewer_analyses" });
+        let id = sink.case(term, desc, runs >= 2);
+        if let Some(b) = bad {
+            sink.fail(id, &b, "");
+        }
+    }
+}
+
 pub fn run(args: &Args) {
     let mut sink = Sink::new("C11", &args.out, &["Model.Codec", "Model.CodecIO", "Model.CodecCheck"], args.seed, &args.tier);
     sink.shard_size = 12;
-    sink.rule("(a) words of generated system and user dictionaries (strings across the 127/128 prefix boundary, astral characters, forms empty / equal / different, arrays of 0..127 ids, own and foreign dictionary forms, with synonym ids and re-labelled as the format without) x ALL 1024 requested subsets for some words and 40 sampled subsets (always incl. {}, {SURFACE}, {DIC_FORM_WORD_ID}, {NORMALIZED_FORM}, {READING_FORM}, splits, all) for the others: raw WordInfoData of get_word_info_subset(normalize s) vs model, requested accessors vs full load; (b) analyses of texts over the shipped test dictionaries (system+user) with/without path-rewrite plugins x random subset x initial mode x mode x both orders of set_mode/set_subset vs the full-field analysis, and the tokenizer's resulting subset vs model; every case non-trivial; distinct by generated Coq term");
+    sink.rule("(a) words of generated dictionaries: a system dictionary (also re-labelled as the format without synonym ids) or a system dictionary with TWO user dictionaries on top, the second with references from user words to user words (strings across the 127/128 prefix boundary, astral characters, forms empty / equal / different, arrays of 0..127 ids, own and foreign dictionary forms) x ALL 1024 requested subsets for some words and 40 sampled subsets (always incl. {}, {SURFACE}, {DIC_FORM_WORD_ID}, {NORMALIZED_FORM}, {READING_FORM}, each split alone, all) for the others: raw WordInfoData of LexiconSet::get_word_info_subset(normalize s) vs model, requested accessors vs full load; (b) analyses of texts over the shipped system dictionary with user2.csv and user1.csv compiled on top as dictionaries 1 and 2, with/without path-rewrite plugins x random subset x initial mode x mode x both orders of set_mode/set_subset vs the full-field analysis, and the tokenizer's resulting subset vs model; (c) sequences of 4..10 operations (set_mode, set_subset, analyse + collect_results) on two long-lived tokenizers sharing two MorphemeLists, every analysis vs a fresh full-field analysis in the same mode, the subset each list reports after a collection vs model; every case non-trivial except sequences with fewer than two analyses; distinct by generated Coq term");
     let mut rng = Rng::new(args.seed);
     if let Some(p) = &args.replay {
         let v: Value = serde_json::from_str(&std::fs::read_to_string(p).unwrap()).unwrap();
         let case = &v["case"];
         if case["kind"] == "c11-tok" {
             let rw = case["rewrite"].as_bool().unwrap();
-            let dict = JapaneseDictionary::from_cfg(&config(rw)).unwrap();
+            let dict = shipped_stack(rw).unwrap();
             let (text, s, m0, m) = (case["text"].as_str().unwrap(), case["subset"].as_u64().unwrap() as u32, case["m0"].as_u64().unwrap(), case["m"].as_u64().unwrap());
             println!("text {:?} subset {:#b} initial mode {} mode {} path-rewrite plugins {}", text, s, m0, m, rw);
             println!("full fields        : {:?}", analyse(&dict, text, mode_of(m0), mode_of(m), None, 0, s));
             println!("set_mode;set_subset: {:?}", analyse(&dict, text, mode_of(m0), mode_of(m), Some(s), 0, s));
             println!("set_subset;set_mode: {:?}", analyse(&dict, text, mode_of(m0), mode_of(m), Some(s), 1, s));
+        } else if case["kind"] == "c11-seq" {
+            let rw = case["rewrite"].as_bool().unwrap();
+            let dict = shipped_stack(rw).unwrap();
+            let m0s = [case["m0"][0].as_u64().unwrap(), case["m0"][1].as_u64().unwrap()];
+            let ops = ops_from_json(&case["ops"]);
+            println!("two tokenizers (initial modes {:?}), two result lists, path-rewrite plugins {}: {:?}", m0s, rw, ops);
+            let (_, bad) = run_sequence(&dict, rw, m0s, &ops, true);
+            println!("verdict: {:?}", bad);
         } else if case["kind"] == "c11-word" {
             // regenerate the dictionary from the recorded generator state and show the word for the subsets that differ
             let st = case["rng"].as_u64().unwrap();
             let user = case["user"].as_bool().unwrap();
-            let mut r = Rng(st);
-            let mut scratch = Sink::new("C11", &args.out.join("scratch"), &[], 0, "quick");
-            let c = c05::gen_case(&mut r, &mut scratch, user, false, false);
-            println!("system csv:\n{}user csv:\n{}", c.sys_csv, c.user_csv);
+            let dic = case["dic"].as_u64().unwrap_or(if user { 1 } else { 0 }) as u8;
+            let stk = gen_stack(st, user, &args.out);
+            let c = &stk.c;
+            println!("system csv:\n{}user csv (dictionary 1):\n{}user csv (dictionary 2):\n{}", c.sys_csv, c.user_csv, stk.u2.as_ref().map(|x| x.1.as_str()).unwrap_or(""));
             let sys_bytes = c05::compile_system(&c.sys_csv, &c.matrix_text, c.time, &c.descr).unwrap();
             let loaded = DictionaryLoader::read_system_dictionary(&sys_bytes).unwrap().to_loaded().unwrap();
             let wid = case["word"].as_u64().unwrap() as u32;
@@ -442,9 +748,8 @@ pub fn run(args: &Args) {
                 }
             };
             if user {
-                let ub = c05::compile_user(&loaded, &c.user_csv, c.time, &c.descr).unwrap();
-                let jd = c05::load_with_user(sys_bytes.clone(), vec![ub]).unwrap();
-                show(&|s| get(&jd, WordId::new(1, wid), s));
+                let ls = load_stack(&stk).unwrap();
+                show(&|s| get(&ls.jd, WordId::new(dic, wid), s));
             } else {
                 show(&|s| get(&loaded, WordId::new(0, wid), s));
             }
@@ -453,6 +758,7 @@ pub fn run(args: &Args) {
         return;
     }
     word_level(&mut sink, &mut rng, args.n(26, 300), args.n(40, 400));
-    tokenizer_level(&mut sink, &mut rng, args.n(600, 8000));
+    tokenizer_level(&mut sink, &mut rng, args.n(400, 6000));
+    sequence_level(&mut sink, &mut rng, args.n(300, 4000));
     sink.finish();
 }
